@@ -156,12 +156,30 @@ theorem checkProbe_ok (env : RegexEnv) {t : Table} (hi : Inv false t) (d : Dir) 
     Spec.checkProbe env d a.dflt ((a.pols.map (fun p => p.stmts.map Stmt.toR)).flatten) r (probe env d a r) = none :=
   checkProbe_closed env hi d a (hi.slot d a h) r
 
-theorem firstSome_none {α} (f : Nat → α → Option String) : ∀ (i : Nat) (l : List α),
-    (∀ a ∈ l, ∀ j, f j a = none) → Spec.firstSome f i l = none
+theorem isRpki_toR (c : Cond) : Spec.isRpkiCond c.toR = c.isRpki := by
+  cases c with
+  | set k n o snap => rfl
+  | plain p => cases p <;> rfl
+
+/-- the flag the model lists is the one the reference derives from the resolved statements -/
+theorem needsRpki_eq (pols : List Policy) :
+    ((pols.map (fun p => p.stmts.map Stmt.toR)).flatten.any fun s => s.conds.any Spec.isRpkiCond) = needsRpki pols := by
+  simp only [needsRpki, List.any_flatten, List.any_map, Function.comp_def, Stmt.toR, isRpki_toR]
+
+theorem rpkiFlag_ok (a : Assign) :
+    (if (a.dump.rpki != ((a.pols.map (fun p => p.stmts.map Stmt.toR)).flatten.any fun s => s.conds.any Spec.isRpkiCond)) = true
+      then [((0 : Nat), "needs-rpki-flag")] else []) = [] := by
+  have h := needsRpki_eq a.pols
+  simp only [Assign.dump]
+  rw [h]
+  simp
+
+theorem allFails_nil {α} (f : α → Option String) : ∀ (i : Nat) (l : List α),
+    (∀ a ∈ l, f a = none) → Spec.allFails f i l = []
   | _, [], _ => rfl
   | i, a :: r, h => by
-      simp only [Spec.firstSome, h a (by simp) i]
-      exact firstSome_none f (i + 1) r (fun b hb j => h b (by simp [hb]) j)
+      simp only [Spec.allFails, h a (by simp), List.nil_append]
+      exact allFails_nil f (i + 1) r (fun b hb => h b (by simp [hb]))
 
 theorem mem_zip_map {α β} (f : α → β) : ∀ (l : List α) (a : α) (b : β), (a, b) ∈ l.zip (l.map f) → b = f a
   | [], _, _, h => by simp at h
@@ -171,16 +189,16 @@ theorem mem_zip_map {α β} (f : α → β) : ∀ (l : List α) (a : α) (b : β
       · rfl
       · exact mem_zip_map f r a b h
 
-theorem checkDir_ok (env : RegexEnv) {t : Table} (hi : Inv false t) (d : Dir) (rs : List Route) :
-    Spec.checkDir env d t.dump ((t.slot d).map Assign.dump) rs (probesOf env d t rs) = none := by
+theorem dirFails_ok (env : RegexEnv) {t : Table} (hi : Inv false t) (d : Dir) (rs : List Route) :
+    Spec.dirFails env d t.dump ((t.slot d).map Assign.dump) rs (probesOf env d t rs) = [] := by
   simp only [probesOf]
   cases hs : t.slot d with
   | none => rfl
   | some a =>
-      simp only [Option.map_some, Spec.checkDir, List.length_map, ne_eq, not_true_eq_false, if_false,
-        resolveAsg_dump hi d a hs]
-      apply firstSome_none
-      intro x hx j
+      simp only [Option.map_some, Spec.dirFails, List.length_map, ne_eq, not_true_eq_false, if_false,
+        resolveAsg_dump hi d a hs, rpkiFlag_ok a, List.nil_append]
+      apply allFails_nil
+      intro x hx
       obtain ⟨r, p⟩ := x
       have := mem_zip_map (probe env d a) rs r p hx
       subst this
@@ -569,87 +587,5 @@ theorem refsStable_ok (env : RegexEnv) {t : Table} (hi : Inv ar t) (op : Op) (hi
 
 theorem refsStable_refl {t : Table} (hi : Inv ar t) : Spec.refsStable t.dump t.dump = true :=
   refsStable_of hi hi (fun _ _ _ => rfl) (fun _ _ _ => rfl) (fun _ _ => rfl)
-
-/-! ## the run -/
-
-/-- no member of a community set is given by a well-known *name* (the name → value translation
-    of `parse_community` involves string case folding and is tied by correspondence only) -/
-def Op.noWellKnown : Op → Bool
-  | .setAdd .comm _ es => es.all (fun e => match e with | .pat s => (Spec.wellKnownValue s.toLower).isNone | _ => true)
-  | .setReplace .comm _ es => es.all (fun e => match e with | .pat s => (Spec.wellKnownValue s.toLower).isNone | _ => true)
-  | _ => true
-
-theorem wellKnown_all (es : List Elem) (n : String) (cur : Dump)
-    (h : es.all (fun e => match e with | .pat s => (Spec.wellKnownValue s.toLower).isNone | _ => true) = true) :
-    (es.all fun e =>
-        match e with
-        | .pat s =>
-            (match Spec.wellKnownValue s.toLower with
-             | some v =>
-                 (match Spec.lookupSet cur .comm n with
-                  | some (.strs pats) => pats.contains s!"^{v / 65536}:{v % 65536}$"
-                  | _ => false)
-             | none => true)
-        | _ => true) = true := by
-  induction es with
-  | nil => rfl
-  | cons e r ih =>
-      simp only [List.all_cons, Bool.and_eq_true] at h ⊢
-      refine ⟨?_, ih h.2⟩
-      cases e with
-      | pat s =>
-          have := h.1
-          simp only at this
-          cases hw : Spec.wellKnownValue s.toLower with
-          | none => simp only [hw]
-          | some v => simp [hw] at this
-      | _ => rfl
-
-theorem wellKnownOk_ok (op : Op) (res : Res) (cur : Dump) (h : op.noWellKnown = true) :
-    Spec.wellKnownOk op res cur = true := by
-  unfold Spec.wellKnownOk
-  split
-  · exact wellKnown_all _ _ _ (by simpa [Op.noWellKnown] using h)
-  · exact wellKnown_all _ _ _ (by simpa [Op.noWellKnown] using h)
-  · rfl
-
-theorem probesOf_step (env : RegexEnv) (t : Table) (op : Op) (d : Dir) (rs : List Route)
-    (h : Spec.isAsgOp d op = false) : probesOf env d (t.step env op).1 rs = probesOf env d t rs := by
-  simp only [probesOf, step_slot env t op d h]
-
-theorem dump_slot (t : Table) (d : Dir) :
-    (match d with | .imp => t.dump.imp | .exp => t.dump.exp) = (t.slot d).map Assign.dump := by
-  cases d <;> rfl
-
-theorem checkSteps_ok (env : RegexEnv) (rs : List Route) : ∀ (ops : List Op) (t : Table) (i : Nat), Inv false t →
-    (∀ op ∈ ops, op.noAsRegex = true ∧ op.noWellKnown = true) →
-    Spec.checkSteps env rs i t.dump (probesOf env .imp t rs) (probesOf env .exp t rs) ops (runOps env rs t ops) = .ok
-  | [], t, i, _, _ => by simp [runOps, Spec.checkSteps]
-  | op :: ops, t, i, hi, hop => by
-      have hi' : Inv false (t.step env op).1 := hi.step env op (Or.inr (hop op (by simp)).1)
-      have h1 := refsStable_ok env hi op hi'
-      have h2 := wellKnownOk_ok op (t.step env op).2 (t.step env op).1.dump (hop op (by simp)).2
-      have h3 : (!Spec.isAsgOp .imp op && decide (probesOf env .imp (t.step env op).1 rs ≠ probesOf env .imp t rs)) = false := by
-        cases ha : Spec.isAsgOp .imp op
-        · simp [probesOf_step env t op .imp rs ha]
-        · rfl
-      have h4 : (!Spec.isAsgOp .exp op && decide (probesOf env .exp (t.step env op).1 rs ≠ probesOf env .exp t rs)) = false := by
-        cases ha : Spec.isAsgOp .exp op
-        · simp [probesOf_step env t op .exp rs ha]
-        · rfl
-      have h5 := checkDir_ok env hi' .imp rs
-      have h6 := checkDir_ok env hi' .exp rs
-      have ih := checkSteps_ok env rs ops (t.step env op).1 (i + 1) hi' (fun o ho => hop o (by simp [ho]))
-      simp only [runOps, Spec.checkSteps, h1, h2, Bool.not_true, Bool.false_eq_true, if_false]
-      simp only [h3, h4, Bool.false_eq_true, if_false]
-      have e1 : (t.step env op).1.dump.imp = ((t.step env op).1.slot .imp).map Assign.dump := rfl
-      have e2 : (t.step env op).1.dump.exp = ((t.step env op).1.slot .exp).map Assign.dump := rfl
-      rw [e1, e2, h5, h6]
-      exact ih
-
-/-- master lemma: the C14 reference checker accepts every run of the model -/
-theorem check_run_ok (env : RegexEnv) (c : Case)
-    (h : ∀ op ∈ c.ops, op.noAsRegex = true ∧ op.noWellKnown = true) : Spec.check env c (run env c) = .ok :=
-  checkSteps_ok env c.probes c.ops {} 0 (Inv.empty false) h
 
 end Rbgp.Policy
